@@ -64,7 +64,7 @@ class RunConfig:
             'reward': list(REWARD), 'evo': bool(self.evo), 'warm': False}
 
 
-_INT_FIELDS = ('id', 'sid', 'sec', 'found', 'needed', 'active', 'latest', 'reuse', 'stop', 'n', 'pending',
+_INT_FIELDS = ('id', 'has', 'sid', 'sec', 'found', 'needed', 'active', 'latest', 'reuse', 'stop', 'n', 'pending',
                'completed', 'infeasible', 'best', 'nprop', 'nfb', 'size', 'ok', 'group', 'crash')
 
 
